@@ -68,8 +68,8 @@ def obligations(tier):
     # ---- brng generators, DWP/CHE with Get, bash hash and automaton
     BR = CORE + ['src/crypto/belt/belt_lcl.c', BLOCK, B + 'belt_hash.c', B + 'belt_compr.c', B + 'belt_hmac.c', 'src/crypto/brng.c']
     X = ['--max-field-sensitivity-array-size', '2048']
-    lens = (0, 1, 31, 32, 33, 40) if q else tuple(range(0, 41))
-    inst = [('h_%d_%d_%d' % (n, a, n - a if q else b_), '%d, %d, %d, 32' % (n, a, 0 if q else b_)) for n in lens for a in range(0, n + 1) for b_ in ([0] if q else range(0, n - a + 1, 7))]
+    lens = (0, 1, 32, 33) if q else tuple(range(0, 41))
+    inst = [('h_%d_%d_%d' % (n, a, n - a if q else b_), '%d, %d, %d, 32' % (n, a, 0 if q else b_)) for n in lens for a in (sorted(set(x for x in (0, 1, 5, 31, 32, n) if x <= n)) if q else range(0, n + 1)) for b_ in ([0] if q else range(0, n - a + 1, 7))]
     inst = [(nm + '_%d' % i, args) for i, (nm, args) in enumerate(inst)]
     obs.append(Ob(name='c10_brngCTR', harness='harness/C10/brng_ctr.c', instances=inst, srcs=BR, stub_files=['stubs/belt_block_uf_e.c'], stubs=['belt_block_uf_e'],
                   unwind=60, unwind_rules=[(r'^(belt|brng)\w+Step\w*\.\d+$', 4), (r'^brngBlockInc\.0$', 5)], timeout=600, mem_gb=10, cbmc_extra=X,
@@ -79,8 +79,8 @@ def obligations(tier):
                   unwind=90, unwind_rules=[(r'^(belt|brng)\w+Step\w*\.\d+$', 5)], timeout=900, mem_gb=10, cbmc_extra=X,
                   funcs=['brngHMACStart', 'brngHMACStepR'], bound='%d (request length, split point, iv length) tuples incl. iv_len 72 > 64 (state keeps a pointer to the caller iv), state relocated at every boundary' % len(inst2)))
     AE = BELT_CORE + [BLOCK, B + 'belt_dwp.c', B + 'belt_che.c', B + 'belt_ctr.c']
-    shapes = [(nh, a, nd, b, g1, g2) for nh in ((0, 5, 17, 33) if q else (0, 1, 5, 16, 17, 20, 32, 33)) for a in sorted(set([0, nh // 2, nh])) for nd in ((0, 7, 16, 21) if q else (0, 1, 7, 16, 17, 21, 33)) for b in sorted(set([0, nd // 2, nd]))
-              for (g1, g2) in ((0, 0), (1, 1))]
+    shapes = [(nh, a, nd, b, g1, g2) for nh in ((0, 17, 20) if q else (0, 1, 5, 16, 17, 20, 32, 33)) for a in sorted(set([0, nh // 2] if q else [0, nh // 2, nh])) for nd in ((0, 7, 16) if q else (0, 1, 7, 16, 17, 21, 33)) for b in sorted(set([nd // 2] if q else [0, nd // 2, nd]))
+              for (g1, g2) in (((1, 1),) if q else ((0, 0), (1, 1)))]
     for che in (0, 1):
         obs.append(Ob(name='c10_belt%s_get' % ('CHE' if che else 'DWP'), harness='harness/C10/belt_dwp.c', defs=['USE_CHE'] if che else [],
                       instances=[('h_%d_%d_%d_%d_%d%d' % s_, '%d, %d, %d, %d, %d, %d' % s_) for s_ in shapes], srcs=AE, stub_files=['stubs/belt_block_uf_e.c', 'stubs/belt_polymul_uf.c'],
